@@ -6,8 +6,8 @@ Extraction Language OCaml.
 Extraction "model.ml"
   bytes_eqb
   Props.accepts Props.notifier_step Props.seqno_step Props.cancel_step Props.order_step Props.c13_pred
-  Props.c09_only_own Props.c09_close_cancels_all Props.c11_pred Props.frames_whole Props.refused_write_nothing Props.c03_pred
-  Msgpack.enc Msgpack.enc_alt Msgpack.decode Msgpack.wf_val Msgpack.dec_int32
+  Props.c07_lifecycle Props.c09_only_own Props.c09_close_cancels_all Props.c11_pred Props.frames_whole Props.refused_write_nothing Props.c03_pred
+  Msgpack.enc Msgpack.enc_alt Msgpack.decode Msgpack.wf_val Msgpack.dec_int32 Msgpack.dec_int64
   Frame.frame_val Frame.spec_bytes Frame.encode_value Frame.encode_frame Frame.next_frame Frame.run_frames
   Frame.continues Frame.outcome_of_msg Frame.split_method Frame.has_compressor
   Remote.clean Remote.new_groups Remote.to_string Remote.parse_remote
